@@ -108,6 +108,19 @@ def replay_one(tx):
                 res["findings"].append(finding("init", tx, okind, {"diff": d[:3]}, conc=conc))
             res["truncated"] = 1
             return res
+        # refused calls stutter (RefusedUnchanged): a seeded quarter of the replays makes one or two of them right before
+        # the action, so that whatever a refusal leaves behind in the session shows in the action's outcome
+        if opts.get("noise", True) and sess.rnd.random() < 0.25:
+            res["noise"] = 1
+            accepted = sess.noise(tx["from"])
+            if accepted:
+                res["findings"].append(finding("noise", tx, okind, {"what": "refused_call_accepted", "call": accepted}, conc=conc))
+                return res
+            d = nm.diff(exp_from, nm.project(sess.nf, sess.reg))
+            if d:
+                res["findings"].append(finding("noise", tx, okind, {"what": "refused_call_changed_state", "path": d[0][0],
+                                                                    "expected": d[0][1], "observed": d[0][2]}, conc=conc))
+                return res
         # 2. the action
         out = sess.apply(act)
         res["calls"] += 1
@@ -184,6 +197,12 @@ def replay_walk(item):
                   "obs": step.get("obs", [])}
             act = step["act"]
             okind = kind_of(tx, act)
+            if opts.get("noise", True) and sess.rnd.random() < 0.1:
+                accepted = sess.noise(cur)
+                if accepted:
+                    res["findings"].append(finding("noise", tx, okind, {"what": "refused_call_accepted", "call": accepted,
+                                                                        "in_walk_at_step": k + 1}, conc=conc))
+                    return res
             out = sess.apply(act)
             res["calls"] += 1
             res["steps"] += 1
@@ -337,9 +356,10 @@ def probe_lookups(sess, tx, exp_to, conc, res, okind):
                     bad(label, "entity_in_raises", {"pool": pool, "raised": type(exc).__name__})
                 if name is None:
                     continue
-                # by name
+                # by name (a link list may hold two entities of one name from different parents: either is right)
+                same = [want_ids[j] for j in range(n) if want_names[j] == name]
                 try:
-                    if cont[name].id != uid:
+                    if cont[name].id not in same:
                         bad(label, "by_name_wrong_entity", {"pool": pool, "name": name[:40]})
                 except Exception as exc:  # noqa
                     bad(label, "by_name_raises", {"pool": pool, "name": name[:40], "raised": type(exc).__name__})
@@ -348,6 +368,24 @@ def probe_lookups(sess, tx, exp_to, conc, res, okind):
                         bad(label, "name_not_in", {"pool": pool, "name": name[:40]})
                 except Exception as exc:  # noqa
                     bad(label, "name_in_raises", {"pool": pool, "name": name[:40], "raised": type(exc).__name__})
+            # names / ids of same-kind entities that are NOT members (link lists: entities elsewhere in the block)
+            if islink and members:
+                for o in state["objs"]:
+                    if o["kind"] != members[0]["kind"] or o["kind"] == "feature" or o["id"] in [m["id"] for m in members]:
+                        continue
+                    oname, oid = conc.name(o["name"]), sess.uuid[o["id"]]
+                    if oid in want_ids:
+                        continue        # an id-keeping copy of a member shares the member's id
+                    if oid in cont:
+                        bad(label, "non_member_id_in", {"name": oname[:40]})
+                    if oname not in want_names:
+                        try:
+                            cont[oname]
+                            bad(label, "non_member_name_found", {"name": oname[:40]})
+                        except KeyError:
+                            pass
+                        if oname in cont:
+                            bad(label, "non_member_name_in", {"name": oname[:40]})
             # absent keys
             absent_name = "absent-%d" % n
             try:
@@ -521,6 +559,41 @@ def probe_searches(sess, tx, exp_to, conc, res, okind):
                         bad("parent_block", {"entity": conc.name(o["name"])[:24], "handle": mode})
             except Exception as exc:  # noqa
                 bad("parent/raises", {"kind": o["kind"], "raised": repr(exc)[:160], "handle": mode})
+        # ... the same answers from handles obtained through LINKS (an entity's .sources list, its .metadata)
+        for x in state["objs"]:
+            try:
+                via = []
+                if x["kind"] in ("array", "tag", "mtag", "group") and x["ls"].get("sources"):
+                    hx = sess.obj(x["id"], fresh=fresh)
+                    lst = list(hx.sources)
+                    for i, sid in enumerate(x["ls"]["sources"]):
+                        via.append(("sources_list", objs[sid], lst[i] if i < len(lst) else None))
+                        via.append(("sources_list_by_id", objs[sid], hx.sources[sess.uuid[sid]]))
+                if x["kind"] != "property" and x.get("rl", {}).get("metadata") not in (None, 0):
+                    hx = sess.obj(x["id"], fresh=fresh)
+                    via.append(("metadata_link", objs[x["rl"]["metadata"]], hx.metadata))
+                for how, o, h in via:
+                    if h is None or h.id != sess.uuid[o["id"]]:
+                        continue            # (what the link yields is C05's business)
+                    own = o["owner"]
+                    want_parent = own if (own != 0 and objs[own]["kind"] == o["kind"]) else None
+                    got = h.parent if o["kind"] == "section" else h.parent_source
+                    got_id = None if got is None else got.id
+                    want_id = None if want_parent is None else sess.uuid[want_parent]
+                    if got_id != want_id:
+                        bad("parent/%s/via_%s" % (o["kind"], how),
+                            {"entity": conc.name(o["name"])[:24], "linked_from": x["kind"],
+                             "expected": None if want_parent is None else conc.name(objs[want_parent]["name"])[:24],
+                             "observed": None if got is None else got.name[:24], "handle": mode})
+                    if o["kind"] == "source":
+                        b = o
+                        while b["kind"] != "block":
+                            b = objs[b["owner"]]
+                        pb = h.parent_block
+                        if pb is None or pb.id != sess.uuid[b["id"]]:
+                            bad("parent_block/via_%s" % how, {"entity": conc.name(o["name"])[:24], "handle": mode})
+            except Exception as exc:  # noqa
+                bad("parent/raises_via_link", {"kind": x["kind"], "raised": repr(exc)[:160], "handle": mode})
         # referring lists = inverse of the stored links
         for o in state["objs"]:
             try:
@@ -1014,6 +1087,8 @@ def key_of(f):
         return "stamps/%s/%s/%s/auto_%s" % (d["kind"], d["attr"], d["what"], "on" if d.get("auto") else "off")
     if f["stage"] == "xcopy":
         return "xcopy/%s" % d["what"]
+    if f["stage"] == "noise":
+        return "noise/%s/%s" % (d["what"], d.get("call", "-"))
     if f["stage"] == "copy_returned":
         return "Copy/%s/returned_handle_is_not_the_copy/%s" % (f["okind"], "keep_id" if d.get("keep_id") else "fresh_id")
     if f["stage"] == "lookup":
